@@ -531,7 +531,14 @@ LEAVES = [
      'mask': [0, 0, 1, 0]},
     {'cls': 'Scalar', 'kind': 'float', 'vals': 2.5, 'mask': True},                          # shapeless, masked
     {'cls': 'Pair', 'kind': 'int', 'vals': [[0, 1], [1, 0], [1, 1], [0, 0]], 'mask': [0, 1, 0, 0]},
+    # beyond the 200-value cutoff of the pickler's compressed encodings, sparsely masked (fewer than 1/8 of the
+    # elements) and smoothly varying: the hidden numbers must not reach the encoder's range / reference statistics
+    {'cls': 'Scalar', 'kind': 'float', 'vals': [1.0 + (i % 97) / 97.0 for i in range(300)],
+     'mask': [int(i % 23 == 5) for i in range(300)]},
+    {'cls': 'Vector3', 'kind': 'float', 'vals': [[1.0 + i / 120.0, 2.0 - i / 240.0, 0.5 + (i % 7) / 14.0] for i in range(120)],
+     'mask': [int(i % 31 == 3) for i in range(120)]},
 ]
+BIG_LEAVES = (13, 14)
 
 
 def build_leaf(d, Pm):
@@ -557,6 +564,14 @@ def _pickle_lossy(Pm, x):
     return pickle.loads(pickle.dumps(y))
 
 
+def _pickle_digits(digits, reference):
+    def f(Pm, x):
+        y = x.copy()
+        y.set_pickle_digits(digits, reference)
+        return pickle.loads(pickle.dumps(y))
+    return f
+
+
 def _shrink_rt(Pm, x):
     am = x.antimask
     return x.shrink(am).unshrink(am)
@@ -573,6 +588,10 @@ UNARY = {
     'as_int': lambda Pm, x: x.as_int(), 'as_float': lambda Pm, x: x.as_float(), 'as_bool': lambda Pm, x: x.as_boolean(),
     'int': lambda Pm, x: x.int(), 'frac': lambda Pm, x: x.frac(),
     'shrink_rt': _shrink_rt, 'shrink': lambda Pm, x: x.shrink(x.antimask), 'pickle': _pickle_rt, 'pickle_lossy': _pickle_lossy,
+    'pickle_d7_largest': _pickle_digits(7, 'largest'), 'pickle_d6_smallest': _pickle_digits(6, 'smallest'),
+    'pickle_d5_median': _pickle_digits(5, 'median'), 'pickle_d8_logmean': _pickle_digits(8, 'logmean'),
+    'pickle_d9_fpzip': _pickle_digits(9, 'fpzip'), 'pickle_d6_one': _pickle_digits(6, 1.0),
+    'pickle_single': _pickle_digits('single', 'fpzip'), 'pickle_d7_mean': _pickle_digits((7, 5), ('mean', 'largest')),
     'str': lambda Pm, x: str(x), 'repr': lambda Pm, x: repr(x), 'builtin0': lambda Pm, x: x[0].as_builtin(),
     'bool': lambda Pm, x: bool(x), 'clip01': lambda Pm, x: x.clip(0, 1), 'clip01_noremask': lambda Pm, x: x.clip(0, 1, remask=False),
     'mw_eq0': lambda Pm, x: x.mask_where_eq(0, 1), 'mw_lt0': lambda Pm, x: x.mask_where_lt(0), 'mw_ne0_keep': lambda Pm, x: x.mask_where_ne(0, 7, remask=False),
